@@ -220,8 +220,12 @@ def run(chk, tier, only_rule=None):
                                         for gc in A.calls_in(d['init']):
                                             if A.callee_name(gc) == 'get' and 'jsonpointer::' in gc.get('cq', ''):
                                                 ga = gc.get('args') or []
-                                                if len(ga) > 1 and A.ref_name(ga[0]) == 'target' and A.text(A.strip(ga[1], casts=True)) == ptxt: val_ok = True
-                        if not val_ok: val_why = 'the logged value `%s` is not read with jsonpointer::get(target, %s) before the mutation' % (up[2][:30], ptxt)
+                                                if len(ga) > 1 and A.ref_name(ga[0]) == 'target' and A.text(A.strip(ga[1], casts=True)) == ptxt:
+                                                    # a copy: jsonpointer::get returns a reference into the target, which the mutation is about to overwrite
+                                                    if F.tname(fn, d.get('t')).rstrip().endswith('&'):
+                                                        val_why = 'the logged value `%s` (line %s) is a reference to the element of the target that %s overwrites, not a copy taken before: the undo entry records the new value' % (vname, d.get('l'), kind)
+                                                    else: val_ok = True
+                        if not val_ok and not val_why: val_why = 'the logged value `%s` is not read with jsonpointer::get(target, %s) before the mutation' % (up[2][:30], ptxt)
             others = [n2 for n2, c2 in muts if n2 is not mn]
             seen = g.reachable_from(mn, avoid=[x for x in returns + others + good])
             # reached without logging: next iteration of the loop or the normal end of the function
